@@ -286,6 +286,53 @@ def sizer(binary, cwd, args, env=None, shimdir=None, plan=None, timeout=60, tmpd
     return run_proc([binary] + list(args), cwd, e, timeout=timeout, tmpdir=tmpdir, **kw)
 
 
+FAULT_SIGS = ["for-each-ref", "rev-list", "cat-file --batch-check", "cat-file --batch", "rev-parse --verify", "config --list",
+              "rev-parse --git-path", "rev-parse --git-dir", "config --get sizer.names", "config --get sizer.threshold",
+              "config --get sizer.progress", "config --get sizer.jsonVersion"]
+
+
+def fault_probe(chk, prefix, binary, cwd, argv, rng, shimdir, tmpdir, n=3, env=None, baseline=None):
+    """Generic all-or-nothing probe used by checks whose subject is something else: run `argv` with one git child failing
+    at a seeded point; a run that still exits 0 must print exactly what the fault-free run prints (a failing run is C10's
+    business and is not judged here). Returns the number of probes that were delivered."""
+    if baseline is None:
+        r0 = sizer(binary, cwd, argv, env=env, tmpdir=tmpdir)
+        if r0.rc != 0:
+            return 0
+        baseline = r0.out
+    delivered = 0
+    for k in range(n):
+        pdir = os.path.join(tmpdir, "probe-%d-%d" % (os.getpid(), rng.getrandbits(30)))
+        rule = {"sig": rng.choice(FAULT_SIGS), "ord": rng.choice([0, 0, 0, 1]), "mode": "fault",
+                "term": rng.choice(["exit:128", "exit:2", "sig:KILL", "sig:TERM"]),
+                "after_bytes": rng.choice([0, 0, 20, 41, 100, 300, 1 << 40]), "before_exec": rng.random() < 0.25}
+        plan = make_plan(pdir, [rule])
+        r = sizer(binary, cwd, argv, env=env, shimdir=shimdir, plan=plan, tmpdir=tmpdir, timeout=30)
+        evs = read_events(pdir)
+        shutil.rmtree(pdir, ignore_errors=True)
+        if not any(e.get("delivered") for e in evs):
+            continue
+        delivered += 1
+        chk.count()
+        if r.timed_out:
+            if deadlock_witness(r):
+                chk.violation(prefix + "/fault-probe/hang(deadlock witness)", {"argv": argv, "rule": rule, "dump": r.err[-1500:]})
+            continue
+        if r.rc == 0 and r.out != baseline:
+            chk.violation(prefix + "/fault-probe/exit-0-but-report-differs-from-fault-free-run/" + rule["sig"].split(" ")[0],
+                          {"argv": argv, "rule": rule, "out": r.out[:200], "want": baseline[:200]})
+        elif r.rc != 0 and r.out.strip():
+            chk.violation(prefix + "/fault-probe/failure-with-output-on-stdout/" + rule["sig"].split(" ")[0],
+                          {"argv": argv, "rule": rule, "out": r.out[:200]})
+    chk.bump("fault_probes_delivered", delivered)
+    return delivered
+
+
+def ambient(rng, p_trace=0.15):
+    """Environment noise that must never matter (a chatty git)."""
+    return {"GIT_TRACE": "1"} if rng.random() < p_trace else {}
+
+
 def make_plan(dirpath, rules=(), record=False):
     """Write a shim plan into dirpath (which also receives counters + events.jsonl)."""
     os.makedirs(dirpath, exist_ok=True)
